@@ -6,6 +6,7 @@ func init() {
 		Technique:   "sign analysis of the step on success paths (finite-case over taken guards), error-propagation and error-checked rules, constant/role provenance on the flag-resolution code",
 		Explanation: "Decides the structural clauses of flag resolution for all flag values: every step that reaches the engine is strictly positive (explicit steps guarded by > 0, default floored at 1s, NaN/Inf rejected); malformed values reach failure exits and their own error variable is the one tested; the since default equals the advertised 6h; default step formula; end defaults to now and start to min(end, now) - since; integer timestamps are seconds up to a 10..17 digit threshold and nanoseconds above, fractional seconds are rounded, text is RFC3339Nano; the engine receives exactly the parsed values.",
 		Decided: []string{
+			"PV-OKGATE: defaultStep only where the step parameter is absent (Get ok == false)",
 			"PV-CONST: fractional seconds are scaled by float64(time.Second) before the conversion to a duration; fractional unix seconds pass through math.Round between math.Modf and time.Unix",
 			"FE-SIGN: parseStep success values are defaultStep(..) or guarded by d > 0; defaultStep uses math.Max(.., >=1); parseDuration rejects NaN/Inf",
 			"ERR-PROP / ERR-CHECKED: parseTimeRange, parseStep, RunE propagate and test each call's own error; try-next parsers never return nil when all parsers failed",
